@@ -290,4 +290,13 @@ func NewBalanceCommand$1$1 returns (err)
     assert @files [C16] len(#arg0) == 2 && #arg0[0] == o.GlobalConfig.DbFileName && #arg0[1] == o.GlobalConfig.LogFileName
   }
 
+
+// the command's own flag table: the option names the options loader and the reporters read (C16)
+macro CmdStrFlag(f cli.Flag, name string) bool := typeis(f, "*cli.StringFlag") && payload(f) != 0 && ptr(cli.StringFlag, payload(f)).Name == name
+macro CmdBoolFlag(f cli.Flag, name string) bool := typeis(f, "*cli.BoolFlag") && payload(f) != 0 && ptr(cli.BoolFlag, payload(f)).Name == name
+func NewBalanceCommand returns (cmd)
+  props C16 C03 C08
+  ensures @name [C16] cmd != nil && cmd.Name == "balance"
+  ensures @flags [C16 C03] len(cmd.Flags) == 5 && CmdStrFlag(cmd.Flags[0], "begin") && CmdStrFlag(cmd.Flags[1], "end") && CmdBoolFlag(cmd.Flags[2], "collapse-last") && CmdBoolFlag(cmd.Flags[3], "collapse") && CmdStrFlag(cmd.Flags[4], "single-element, s")
+
 @*/
